@@ -25,27 +25,89 @@ ASSUMPTIONS = C.COMMON_ASSUMPTIONS + [
 TRUSTED = C.COMMON_TRUSTED
 
 
+TRANSLATE_FALLBACK = C.TRANSLATE_FALLBACK + ("; SAVE-<n> ids: the driver checks the ids of produce_initial_state against SAVE-<index> on every "
+                                             "replay; the record terminator and the parser shape: framed-number cases against the extracted model and "
+                                             "the real state file cut at every byte; the load_state buffer: the 250000-byte record probe must load")
+
+
 def translate():
-    fails = C.translate()[0]
-    # T-const: the SAVE-<n> counters of both save paths are usize (enumerate() / `0usize`), the framing is "\n\0"
+    """reads VALUES (counter type, terminator bytes, buffer expression, combinator shape); a construct that is not
+    recognised at all is reported `unreadable:` (soft, see TRANSLATE_FALLBACK), a recognised different value is hard"""
     import re
-    src = open(C.STATE_RS).read()
-    prod = C.fn_body(src, "produce_initial_state")
-    wr = C.fn_body(src, "write_requests_to_file")
-    if not re.search(r"generate_requests\(\)\s*\.into_iter\(\)\s*\.enumerate\(\)", prod) or 'format!("SAVE-{counter}")' not in prod:
-        fails.append("produce_initial_state no longer numbers the requests SAVE-<usize index of enumerate()>")
-    if not re.search(r"let\s+mut\s+counter\s*=\s*0usize", wr) or 'format!("SAVE-{counter}")' not in wr or not re.search(r"counter\s*\+=\s*1", wr):
-        fails.append("write_requests_to_file no longer numbers the requests with a usize counter")
-    if 'b"\\n\\0"' not in wr:
-        fails.append('write_requests_to_file no longer terminates every record with b"\\n\\0"')
-    par = open(C.os.path.join(vlib.REPO, "command/src/parser.rs")).read()
-    req = open(C.os.path.join(vlib.REPO, "bin/src/command/requests.rs")).read()
-    if not re.search(r"std::cmp::max\(\s*200_000,\s*\(server\.config\.max_command_buffer_size as usize\)\.saturating_mul\(2\),?\s*\)", req) or "Buffer::with_capacity(buffer_capacity)" not in req:
-        fails.append("bin load_state no longer sizes its buffer max(200000, 2*max_command_buffer_size) (the driver replicates that loop)")
-    flat = re.sub(r"\s+", "", par)
-    want = 'many0(nom::combinator::complete(terminated(map_res(is_not("\\0"),parse_one_request),char(' + "'\\0'" + '),)))'
-    if want not in flat:
-        fails.append("parser.rs: parse_several_requests is no longer many0(complete(terminated(map_res(is_not(NUL), from_slice), char(NUL))))")
+    fails = C.translate()[0]
+    src = C.strip_comments(open(C.STATE_RS).read())
+    # 1. ids of produce_initial_state: "SAVE-<index of enumerate()>"
+    try:
+        prod = C.fn_body(src, "produce_initial_state")
+        if not (re.search(r"\.enumerate\(\)", prod) and re.search(r'format!\("SAVE-\{\w*\}"', prod)):
+            fails.append("unreadable: produce_initial_state: numbering of the requests not recognised; assumed SAVE-<usize index>")
+    except C.TieError:
+        fails.append("unreadable: produce_initial_state not found; assumed ids SAVE-<usize index>")
+    # 2. counter of write_requests_to_file
+    try:
+        wr = C.fn_body(src, "write_requests_to_file")
+    except C.TieError:
+        wr = None
+        fails.append("unreadable: write_requests_to_file not found; assumed usize counter and b\"\\n\\0\" terminator")
+    if wr is not None:
+        m = re.search(r'format!\("SAVE-\{(\w+)\}"', wr)
+        ok = None
+        if m:
+            var = m.group(1)
+            d = re.search(r"let\s+mut\s+" + var + r"\s*(?::\s*(\w+))?\s*=\s*0(?:_?(\w+))?\s*;", wr)
+            if d:
+                ty = d.group(1) or d.group(2)
+                if ty is None and re.search(r"Ok\(\s*" + var + r"\s*\)", wr):
+                    ty = "usize"          # returned as the function's usize count
+                if ty is not None:
+                    ok = (ty == "usize", ty)
+            elif re.search(r"\.enumerate\(\)", wr):
+                ok = (True, "usize")
+        if ok is None:
+            fails.append("unreadable: write_requests_to_file: the SAVE-<n> counter not recognised; assumed usize")
+        elif not ok[0]:
+            fails.append("write_requests_to_file numbers the requests with a %s counter (model: usize, ids distinct for every length)" % ok[1])
+        # 3. record terminator
+        lits = re.findall(r'b"((?:[^"\\]|\\.)*)"', wr)
+        for name in re.findall(r"\b([A-Z][A-Z0-9_]+)\b", wr):
+            c = re.search(r"const\s+" + name + r"\s*:[^=]*=\s*&?\s*b\"((?:[^\"\\]|\\.)*)\"", src)
+            if c:
+                lits.append(c.group(1))
+        if "\\n\\0" in lits:
+            pass
+        elif lits:
+            fails.append("write_requests_to_file terminates a record with %r (model: \\n\\0)" % lits)
+        else:
+            fails.append("unreadable: write_requests_to_file: record terminator not recognised; assumed b\"\\n\\0\"")
+    # 4. buffer of the load_state loop (replicated in the driver)
+    req = C.strip_comments(open(C.os.path.join(vlib.REPO, "bin/src/command/requests.rs")).read())
+    try:
+        ls = C.fn_body(req, "load_state")
+        m = re.search(r"Buffer::with_capacity\(\s*([^;]*?)\s*\)\s*;", ls)
+        expr = m.group(1) if m else None
+        if expr and re.fullmatch(r"\w+", expr) and not re.fullmatch(r"[0-9_]+", expr):
+            d = re.search(r"let\s+" + expr + r"\s*(?::\s*\w+)?\s*=\s*(.*?);", ls, flags=re.S)
+            expr = d.group(1) if d else None
+        flat = re.sub(r"\s+", "", expr or "")
+        if not flat:
+            fails.append("unreadable: load_state: buffer capacity not recognised; the driver replicates max(200000, 2*max_command_buffer_size)")
+        elif re.fullmatch(r"[0-9_]+", flat):
+            fails.append("load_state parses through a fixed %s-byte buffer (the driver replicates max(200000, 2*max_command_buffer_size))" % flat)
+        elif not (re.search(r"200_?000", flat) and "max_command_buffer_size" in flat and re.search(r"saturating_mul\(2\)|\*2", flat)):
+            fails.append("unreadable: load_state: buffer capacity `%s` not recognised; the driver replicates max(200000, 2*max_command_buffer_size)" % flat[:80])
+    except C.TieError:
+        fails.append("unreadable: load_state not found; the driver replicates its parse loop")
+    # 5. shape of the state-file parser
+    par = C.strip_comments(open(C.os.path.join(vlib.REPO, "command/src/parser.rs")).read())
+    try:
+        body = re.sub(r"\s+", "", C.fn_body(par, "parse_several_requests"))
+        body = re.sub(r"\b(?:nom::)?(?:combinator|multi|sequence|bytes::streaming|bytes::complete|character::complete)::", "", body)
+        body = body.replace(",)", ")")
+        want = 'many0(complete(terminated(map_res(is_not("\\0"),parse_one_request),char(' + "'\\0'" + '))))(input)'
+        if want not in body:
+            fails.append("unreadable: parser.rs: parse_several_requests is not recognised as many0(complete(terminated(map_res(is_not(NUL), from_slice), char(NUL))))")
+    except C.TieError:
+        fails.append("unreadable: parser.rs: parse_several_requests not found")
     return fails
 
 
